@@ -46,6 +46,7 @@ func genC01(r *Rand, tier string, i int) *h.Scenario {
 	p := DefaultProfile("C01")
 	p.MaxBars = 6
 	p.PQueueAfter = 0.12 // successors created before their predecessor finishes (late ones are finding F4b, owned by C17)
+	p.PTightTerm = 0.35  // more rows than lines: bars that have no line still finish and are waited for
 	if tier == "thorough" {
 		p.MaxBars = 8
 		p.MaxClients = 4
@@ -123,6 +124,7 @@ func genC02(r *Rand, tier string, i int) *h.Scenario {
 	p.PPostTerminalOps = 0.4
 	p.PQueueAfter = 0
 	p.PCancelEnd = 0.5
+	p.PTightTerm = 0.3
 	sc := GenBase(r, &p)
 	// place the container-done event at a random position of a random client (or main)
 	if r.Bool(0.5) {
